@@ -35,7 +35,7 @@ extern "C" void h_k3_light()
   new (&g_bw.b._active_thread_contexts_cache) std::vector<ThreadContext*>(); g_bw.b._active_thread_contexts_cache.reserve(4);
   new (&g_bw.b._options) BackendOptions();
   bk_init_logger(0, 0);
-  for (uint32_t c = 0; c < NCTX; c++) bk_init_context(c, 64 * c);
+  for (uint32_t c = 0; c < NCTX; c++) { bk_init_context(c, 64 * c); bk_static_ring(c); }
   uint32_t total = 0;
   for (uint32_t c = 0; c < NCTX; c++)
   {
@@ -88,7 +88,7 @@ extern "C" void h_k1_light()
   g_bw.b._options.transit_events_hard_limit = HARDL;
   bool user_clock = vnd_bool();
   bk_init_logger(0, 0, user_clock ? ClockSourceType::User : ClockSourceType::System);
-  bk_init_context(0, 64);
+  bk_init_context(0, 64); bk_static_ring(0);
   uint64_t ts[K1REC]; bool fl[K1REC]; size_t bytes = 0;
   static std::atomic<bool> flag{false};
   LoggerBase::thread_context = ctx_at(0);
@@ -123,5 +123,5 @@ extern "C" void h_k1_light()
       VASSERT(te->flush_flag == (fl[r] ? &flag : nullptr));
       VASSERT(te->dynamic_log_level == LogLevel::None);
     }
-  VWITNESS(exp == 1 && !user_clock && K1REC == 2);
+  VWITNESS(exp == K1REC - 1 && !user_clock && ts_now != ~0ull);      // the last record is held back
 }
